@@ -1,1 +1,2 @@
 import Fix8Model.Props.C07
+import Fix8Model.Props.C08
